@@ -10,6 +10,7 @@ import (
 	vast "verif/ast"
 	"verif/gen"
 	"verif/ref/rtypes"
+	"verif/ref/typing"
 	"verif/sup"
 )
 
@@ -36,7 +37,7 @@ func checkC10() int {
 	c := NewCheck("C10")
 	pool := newPool()
 	envs := genEnvs(c, c.pick(2500, 50000), 10, 45)
-	c.Rule = "G2: random type-definition environments (aliases, mutual recursion, shifts, per-definition annotations in all 12 spellings, shuffled order), 45% with one injected defect (duplicate label, undefined name, alias cycle of length 1..5, invalid mode, illegal/flipped shift, changed or erased annotation, duplicate definition, annotation contradicting a shift, reference of another mode); oracle R3: Grits accepts the program consisting of the definitions iff R3 finds them well formed, and unfolding an accepted name needs at most |D|+1 steps and ends in a structural type; non-trivial = distinct environment with >= 3 definitions"
+	c.Rule = "G2: random type-definition environments (aliases, mutual recursion, shifts, per-definition annotations in all 12 spellings, shuffled order), 45% with one injected defect (duplicate label, undefined name, alias cycle of length 1..5, invalid mode, illegal/flipped shift, changed or erased annotation, duplicate definition, annotation contradicting a shift, reference of another mode); oracle R3: Grits accepts the program consisting of the definitions iff R3 finds them well formed; program level: G1 programs and their mode / type-definition mutants (incl. uncalled recoloured copies; 40% of the texts with head mode annotations omitted), oracle R1: an accepted program has no ill-formed written type, and unfolding an accepted name needs at most |D|+1 steps and ends in a structural type; non-trivial = distinct environment with >= 3 definitions"
 	c.Assumptions = []string{"R3's rules are the sentence in the statement of C10/C16 (definedness, distinct labels, contractivity, valid modes, uniform modes up to shifts, legal shifts, directional inference)"}
 	jobs := make([]sup.Job, len(envs))
 	for i, e := range envs {
@@ -99,6 +100,31 @@ func checkC10() int {
 			c.Sample(map[string]interface{}{"definitions": e.text, "injected": e.defect, "reference": fmt.Sprintf("wf=%v %s", e.an.WF, e.an.Reason), "grits": clip(o.Res.TcErr, 120)})
 		}
 	}
+	// annotations: G1 programs and their mode / type-definition mutants (recoloured
+	// signatures, process types, cut annotations, definitions; uncalled recoloured copies),
+	// two fifths written with head annotations omitted; R1 applies the same formation rules
+	// to every written type
+	byOp := map[string]int{}
+	for _, m := range mutantCases(c, pool, c.pick(150, 1200), c.pick(3000, 40000), 10, []string{"mode", "typedef"}, mixedOpt) {
+		c.Evaluations++
+		gv := gritsVerdict(m.o)
+		if gv == "hung" {
+			c.Inconc("watchdog")
+			continue
+		}
+		if gv == "died" || m.v.Kind == typing.Unknown {
+			continue
+		}
+		if p, sig := judge(m); p == "C10" {
+			c.Violation(sig, mwitness(m))
+			continue
+		}
+		if m.v.Kind == typing.Reject && typing.TypeFormation(m.v.Reason) {
+			byOp[m.op+"/"+m.v.Reason]++
+			c.Nontrivial(m.text)
+		}
+	}
+	c.Extra["program_level_illformed_annotations_rejected_by_both"] = byOp
 	if b, err := os.ReadFile("/verif/known/F15.grits"); err == nil {
 		o := pool.Run([]sup.Job{{Kind: "typecheck", Text: string(b)}}, nil)[0]
 		c.PinnedWitness("F15", o.Res != nil && o.Res.TcOK, "accepts ill-formed definitions: head-annotation-contradicts-shift", map[string]interface{}{"definitions": string(b)})
